@@ -285,11 +285,12 @@ pub fn format_blame_metadata(
         };
         if let Some(field) = field {
             // Unicode modifier should not be counted as character to allow a consistent padding
-            let unicode_modifier_width =
-                field.as_ref().chars().count() - UnicodeWidthStr::width(field.as_ref());
+            // (and double-width characters count twice).
+            let n_chars = field.as_ref().chars().count();
+            let display_width = UnicodeWidthStr::width(field.as_ref());
             s.push_str(&format::pad(
                 &field,
-                width + unicode_modifier_width,
+                (width + n_chars).saturating_sub(display_width),
                 alignment_spec,
                 placeholder.precision,
             ))
